@@ -479,6 +479,14 @@ func C03(sp *spec.Spec, ex *rt.Exchange) *Verdict {
 		}
 	}
 	resp := pickResponse(m, oc.Result)
+	if resp != nil && resp.ContentType != "" && len(ex.WireResp.Body) > 0 {
+		// a content type fixed in the design is the one the response announces (parameters and case aside)
+		want := strings.ToLower(strings.TrimSpace(strings.SplitN(resp.ContentType, ";", 2)[0]))
+		got := strings.ToLower(strings.TrimSpace(strings.SplitN(strings.Join(ex.WireResp.Header["Content-Type"], ","), ";", 2)[0]))
+		if got != want {
+			v.add("result-content-type:designed-not-announced", "response announces Content-Type %q, the design fixes %q", got, resp.ContentType)
+		}
+	}
 	locOf := func(a string) valgen.Loc { return cases.RespLocOf(resp, a) }
 	if !isViewed(sp, m) {
 		ResponsePlacement(sp, m, ex, v)
